@@ -24,6 +24,7 @@ type Case struct {
 	Nontrivial bool   `json:"nontrivial"` // takes a non-default branch (rule per property)
 	OracleOK   bool   `json:"oracle_ok"`  // property's own oracle on the observed behaviour
 	Note       string `json:"note"`       // human-readable description / oracle failure text
+	Sig        string `json:"sig,omitempty"`  // violation signature (matched against KNOWN_FINDINGS)
 	Replay     any    `json:"replay,omitempty"`
 }
 
